@@ -9,7 +9,7 @@
 //! (`concretize`); the resulting concrete script is the case line, which is then
 //! run on a fresh builder (`run`) under the oracle.
 use bytes::BytesMut;
-use domain::base::iana::{Class, OptionCode};
+use domain::base::iana::{Class, Opcode, OptRcode, OptionCode, Rcode};
 use domain::base::message_builder::{
     AdditionalBuilder, AnswerBuilder, AuthorityBuilder, HashCompressor, PushError, QuestionBuilder,
     StaticCompressor, StreamTarget, TreeCompressor,
@@ -18,7 +18,8 @@ use domain::base::name::{Name, ParsedName, ToLabelIter, ToName};
 use domain::base::rdata::{ComposeRecordData, RecordData, UnknownRecordData};
 use domain::base::record::RecordHeader;
 use domain::base::wire::Composer;
-use domain::base::{Message, MessageBuilder, Question, Rtype};
+use domain::base::{Message, MessageBuilder, Question, Rtype, Serial, Ttl};
+use domain::rdata::{Aaaa, Cname, Mx, Ns, Ptr, Soa, Srv, A};
 use domain::dep::octseq::array::Array;
 use domain::dep::octseq::Parser;
 use dv_harness::*;
@@ -41,8 +42,10 @@ enum It {
 #[derive(Clone, Debug)]
 enum Op {
     Q { name: Wire, qt: u16, qc: u16 },
-    R { owner: Wire, rt: u16, cl: u16, ttl: u32, pfx: bool, items: Vec<It> },
-    O { udp: u16, opts: Vec<(u16, Vec<u8>)> },
+    R { owner: Wire, rt: u16, cl: u16, ttl: u32, pfx: u8, items: Vec<It> },
+    O { udp: u16, rc: Option<u16>, ver: u8, dok: bool, opts: Vec<(u16, Vec<u8>)> },
+    /// header_mut() setters so that the four header octets become these
+    H([u8; 4]),
     G(u8),
     B,
     W,
@@ -60,7 +63,7 @@ enum Sym {
     LimNext(i64),
     /// a record whose `slot`-th item (a `Z(_, fill)`) is sized so that the
     /// message is `to` octets long after the push
-    Pad { owner: Wire, rt: u16, cl: u16, ttl: u32, pfx: bool, items: Vec<It>, slot: usize, to: usize },
+    Pad { owner: Wire, rt: u16, cl: u16, ttl: u32, pfx: u8, items: Vec<It>, slot: usize, to: usize },
 }
 
 fn hexraw(b: &[u8]) -> String {
@@ -83,7 +86,7 @@ fn op_str(op: &Op) -> String {
     match op {
         Op::Q { name, qt, qc } => format!("q:{}:{}:{}", hexraw(name), qt, qc),
         Op::R { owner, rt, cl, ttl, pfx, items } => {
-            let mut s = format!("r:{}:{}:{}:{}:{}:", hexraw(owner), rt, cl, ttl, if *pfx { 1 } else { 0 });
+            let mut s = format!("r:{}:{}:{}:{}:{}:", hexraw(owner), rt, cl, ttl, *pfx);
             if items.is_empty() {
                 s.push('-');
             }
@@ -100,8 +103,13 @@ fn op_str(op: &Op) -> String {
             }
             s
         }
-        Op::O { udp, opts } => {
-            let mut s = format!("o:{}:", udp);
+        Op::H(h) => format!("h{}", hexraw(h)),
+        Op::O { udp, rc, ver, dok, opts } => {
+            let mut s = if rc.is_none() && *ver == 0 && !*dok {
+                format!("o:{}:", udp)
+            } else {
+                format!("o:{}:{}:{}:{}:", udp, rc.map_or("-".to_string(), |v| v.to_string()), ver, if *dok { 1 } else { 0 })
+            };
             if opts.is_empty() {
                 s.push('-');
             }
@@ -136,7 +144,7 @@ enum CIt {
 /// The record data type driven through the builder.
 struct Raw {
     rt: u16,
-    pfx: bool,
+    pfx: u8,
     items: Vec<CIt>,
     ulen: usize,
     has_n: bool,
@@ -150,7 +158,7 @@ impl RecordData for Raw {
 
 impl ComposeRecordData for Raw {
     fn rdlen(&self, compress: bool) -> Option<u16> {
-        if self.pfx || (compress && self.has_n) {
+        if self.pfx == 1 || (compress && self.has_n) {
             None
         } else {
             Some(u16::try_from(self.ulen).expect("long rdata"))
@@ -180,12 +188,49 @@ impl ComposeRecordData for Raw {
 enum COp {
     Q { name: Name<Vec<u8>>, qt: u16, qc: u16 },
     R { owner: Name<Vec<u8>>, cl: u16, ttl: u32, raw: Raw },
-    O { udp: u16, opts: Vec<(u16, Vec<u8>)> },
+    O { udp: u16, rc: Option<u16>, ver: u8, dok: bool, opts: Vec<(u16, Vec<u8>)> },
+    T { owner: Name<Vec<u8>>, cl: u16, ttl: u32, typed: Typed },
+    H([u8; 4]),
     G(u8),
     B,
     W,
     L(usize),
     NL,
+}
+
+/// The library's own record data types (pfx = 2 in the case line).
+enum Typed {
+    A(A),
+    Aaaa(Aaaa),
+    Ns(Ns<Name<Vec<u8>>>),
+    Cname(Cname<Name<Vec<u8>>>),
+    Ptr(Ptr<Name<Vec<u8>>>),
+    Mx(Mx<Name<Vec<u8>>>),
+    Soa(Soa<Name<Vec<u8>>>),
+    Srv(Srv<Name<Vec<u8>>>),
+}
+
+/// The typed value for (rtype, items) if the items have the type's shape.
+fn typed_of(rt: u16, items: &[It]) -> Option<Typed> {
+    let be16 = |b: &[u8]| u16::from_be_bytes([b[0], b[1]]);
+    let be32 = |b: &[u8]| u32::from_be_bytes([b[0], b[1], b[2], b[3]]);
+    match (rt, items) {
+        (1, [It::B(b)]) if b.len() == 4 => Some(Typed::A(A::from_octets(b[0], b[1], b[2], b[3]))),
+        (28, [It::B(b)]) if b.len() == 16 => {
+            let mut a = [0u8; 16];
+            a.copy_from_slice(b);
+            Some(Typed::Aaaa(Aaaa::new(a.into())))
+        }
+        (2, [It::N(w)]) => Some(Typed::Ns(Ns::new(to_name(w)))),
+        (5, [It::N(w)]) => Some(Typed::Cname(Cname::new(to_name(w)))),
+        (12, [It::N(w)]) => Some(Typed::Ptr(Ptr::new(to_name(w)))),
+        (15, [It::B(b), It::N(w)]) if b.len() == 2 => Some(Typed::Mx(Mx::new(be16(b), to_name(w)))),
+        (6, [It::N(m), It::N(r), It::B(b)]) if b.len() == 20 => Some(Typed::Soa(Soa::new(
+            to_name(m), to_name(r), Serial(be32(&b[0..4])), Ttl::from_secs(be32(&b[4..8])), Ttl::from_secs(be32(&b[8..12])),
+            Ttl::from_secs(be32(&b[12..16])), Ttl::from_secs(be32(&b[16..20]))))),
+        (33, [It::B(b), It::U(w)]) if b.len() == 6 => Some(Typed::Srv(Srv::new(be16(&b[0..2]), be16(&b[2..4]), be16(&b[4..6]), to_name(w)))),
+        _ => None,
+    }
 }
 
 /// Generated names are valid by construction (labels <= 63, total <= 255).
@@ -202,6 +247,9 @@ fn to_name(w: &Wire) -> Name<Vec<u8>> {
 fn compile(op: &Op) -> COp {
     match op {
         Op::Q { name, qt, qc } => COp::Q { name: to_name(name), qt: *qt, qc: *qc },
+        Op::R { owner, rt, cl, ttl, pfx: 2, items } if typed_of(*rt, items).is_some() => {
+            COp::T { owner: to_name(owner), cl: *cl, ttl: *ttl, typed: typed_of(*rt, items).unwrap_or(Typed::A(A::from_octets(0, 0, 0, 0))) }
+        }
         Op::R { owner, rt, cl, ttl, pfx, items } => {
             let mut ci = Vec::with_capacity(items.len());
             let mut ulen = 0usize;
@@ -217,7 +265,8 @@ fn compile(op: &Op) -> COp {
             }
             COp::R { owner: to_name(owner), cl: *cl, ttl: *ttl, raw: Raw { rt: *rt, pfx: *pfx, items: ci, ulen, has_n } }
         }
-        Op::O { udp, opts } => COp::O { udp: *udp, opts: opts.clone() },
+        Op::O { udp, rc, ver, dok, opts } => COp::O { udp: *udp, rc: *rc, ver: *ver, dok: *dok, opts: opts.clone() },
+        Op::H(h) => COp::H(*h),
         Op::G(k) => COp::G(*k),
         Op::B => COp::B,
         Op::W => COp::W,
@@ -341,10 +390,57 @@ fn apply<T: Tgt>(slot: &mut Option<Bld<T>>, op: &COp) -> Result<Res, String> {
                 None => Err("no builder".into()),
             }
         }
-        COp::O { udp, opts } => match slot.as_mut() {
+        COp::T { owner, cl, ttl, typed } => {
+            let cl = Class::from_int(*cl);
+            macro_rules! push_typed {
+                ($b:expr) => {
+                    match typed {
+                        Typed::A(d) => $b.push((owner, cl, *ttl, d)),
+                        Typed::Aaaa(d) => $b.push((owner, cl, *ttl, d)),
+                        Typed::Ns(d) => $b.push((owner, cl, *ttl, d)),
+                        Typed::Cname(d) => $b.push((owner, cl, *ttl, d)),
+                        Typed::Ptr(d) => $b.push((owner, cl, *ttl, d)),
+                        Typed::Mx(d) => $b.push((owner, cl, *ttl, d)),
+                        Typed::Soa(d) => $b.push((owner, cl, *ttl, d)),
+                        Typed::Srv(d) => $b.push((owner, cl, *ttl, d)),
+                    }
+                };
+            }
+            match slot.as_mut() {
+                Some(Bld::An(b)) => catch_mut(|| Res::Push(push_typed!(b))),
+                Some(Bld::Ns(b)) => catch_mut(|| Res::Push(push_typed!(b))),
+                Some(Bld::Ar(b)) => catch_mut(|| Res::Push(push_typed!(b))),
+                Some(Bld::Q(_)) => Ok(Res::Skip),
+                None => Err("no builder".into()),
+            }
+        }
+        COp::H(h) => match slot.as_mut() {
+            Some(b) => catch_mut(|| {
+                let hd = b.mb_mut().header_mut();
+                hd.set_id(u16::from_be_bytes([h[0], h[1]]));
+                hd.set_qr(h[2] & 0x80 != 0);
+                hd.set_opcode(Opcode::from_int((h[2] >> 3) & 0x0F));
+                hd.set_aa(h[2] & 0x04 != 0);
+                hd.set_tc(h[2] & 0x02 != 0);
+                hd.set_rd(h[2] & 0x01 != 0);
+                hd.set_ra(h[3] & 0x80 != 0);
+                hd.set_z(h[3] & 0x40 != 0);
+                hd.set_ad(h[3] & 0x20 != 0);
+                hd.set_cd(h[3] & 0x10 != 0);
+                hd.set_rcode(Rcode::masked_from_int(h[3] & 0x0F));
+                Res::None
+            }),
+            None => Err("no builder".into()),
+        },
+        COp::O { udp, rc, ver, dok, opts } => match slot.as_mut() {
             Some(Bld::Ar(b)) => catch_mut(|| {
                 Res::Push(b.opt(|o| {
                     o.set_udp_payload_size(*udp);
+                    if let Some(v) = rc {
+                        o.set_rcode(OptRcode::masked_from_int(*v));
+                    }
+                    o.set_version(*ver);
+                    o.set_dnssec_ok(*dok);
                     for (code, data) in opts {
                         o.push_raw_option(OptionCode::from_int(*code), data.len() as u16, |t| t.append_slice(data))?;
                     }
@@ -389,7 +485,7 @@ fn off(base: usize, d: i64) -> usize {
     if v < 0 { 0 } else { v as usize }
 }
 
-fn pad_record(owner: &Wire, rt: u16, cl: u16, ttl: u32, pfx: bool, items: &[It], slot: usize, count: usize) -> Op {
+fn pad_record(owner: &Wire, rt: u16, cl: u16, ttl: u32, pfx: u8, items: &[It], slot: usize, count: usize) -> Op {
     let mut its = items.to_vec();
     if let Some(It::Z(n, _)) = its.get_mut(slot) {
         *n = count;
@@ -504,14 +600,15 @@ fn expected_record(op: &Op) -> Option<ER> {
                 It::N(w) | It::U(w) => EI::N(w.clone()),
             }).collect(),
         }),
-        Op::O { udp, opts } => {
+        Op::O { udp, rc, ver, dok, opts } => {
+            let ttl = ((rc.unwrap_or(0) as u32 >> 4) << 24) | ((*ver as u32) << 16) | if *dok { 0x8000 } else { 0 };
             let mut d = Vec::new();
             for (code, data) in opts {
                 d.extend_from_slice(&code.to_be_bytes());
                 d.extend_from_slice(&(data.len() as u16).to_be_bytes());
                 d.extend_from_slice(data);
             }
-            Some(ER { owner: vec![0], rt: 41, cl: *udp, ttl: 0, items: vec![EI::B(d)] })
+            Some(ER { owner: vec![0], rt: 41, cl: *udp, ttl, items: vec![EI::B(d)] })
         }
         _ => None,
     }
@@ -763,10 +860,19 @@ fn run<T: Tgt>(out: &mut Out, target: T, case: &str, ops: &[Op]) -> (String, boo
                     }
                     Op::L(n) => limit = Some(*n),
                     Op::NL => limit = None,
+                    Op::H(h) => {
+                        out.check(b.mb().as_slice()[..4] == h[..], "header_setters_wrong", case,
+                            &format!("op {}: header octets {} after the setters, wanted {}", i, hexraw(&b.mb().as_slice()[..4]), hexraw(h)));
+                    }
                     _ => {}
                 }
             }
             Res::Push(Ok(())) => {
+                if let (Op::O { rc: Some(v), .. }, Some(bf)) = (op, before.as_ref()) {
+                    let o3 = b.mb().as_slice()[3];
+                    out.check(o3 == (bf.msg[3] & 0xF0) | (*v as u8 & 0x0F) && b.mb().as_slice()[..3] == bf.msg[..3], "opt_set_rcode_header_wrong", case,
+                        &format!("op {}: header {} -> {} with set_rcode({})", i, hexraw(&bf.msg[..4]), hexraw(&b.mb().as_slice()[..4]), v));
+                }
                 words.push("ok");
                 out.count("info_push_ok");
                 any_ok = true;
@@ -800,6 +906,15 @@ fn run<T: Tgt>(out: &mut Out, target: T, case: &str, ops: &[Op]) -> (String, boo
                 any_fail = true;
                 if let Some(bf) = before.as_ref() {
                     let now = snap(b);
+                    // a failed opt() whose closure called set_rcode: only the header RCODE differs
+                    let only_rcode = matches!(op, Op::O { rc: Some(_), .. }) && now.msg.len() == bf.msg.len() && now.msg.len() >= 12
+                        && now.msg[..3] == bf.msg[..3] && now.msg[4..] == bf.msg[4..] && now.msg[3] != bf.msg[3]
+                        && now.msg[3] & 0xF0 == bf.msg[3] & 0xF0;
+                    if only_rcode {
+                        out.check(false, "failed_opt_push_changed_header_rcode", case,
+                            &format!("op {}: header octet 3 {:02x} -> {:02x} after a failed opt()", i, bf.msg[3], now.msg[3]));
+                        continue;
+                    }
                     out.check(now.msg == bf.msg, "failed_push_changed_octets", case,
                         &format!("op {}: message octets differ after a failed push (len {} -> {})", i, bf.msg.len(), now.msg.len()));
                     out.check(now.stream == bf.stream, "failed_push_changed_octets", case,
@@ -1107,7 +1222,10 @@ impl<'a> Gen<'a> {
             5 => 86400,
             _ => 3600,
         };
-        Op::R { owner, rt, cl, ttl, pfx: self.r.chance(1, 6), items }
+        // the eight kinds with a typed counterpart in domain::rdata go through
+        // the library's own ComposeRecordData impl half of the time
+        let pfx = if kind <= 8 && self.r.chance(1, 2) { 2 } else { self.r.chance(1, 6) as u8 };
+        Op::R { owner, rt, cl, ttl, pfx, items }
     }
     fn question(&mut self) -> Op {
         let name = self.name();
@@ -1123,7 +1241,25 @@ impl<'a> Gen<'a> {
             let n = if self.r.chance(1, 4) { 0 } else { self.r.below(24) as usize };
             opts.push((code, self.r.bytes(n)));
         }
-        Op::O { udp, opts }
+        // header fields of the OPT record: extended rcode (with and without
+        // touching the message header), version, DO; values with the top bit set
+        let rc = match self.r.below(6) {
+            0 | 1 => None,
+            2 => Some(*self.r.pick(&[0x0FF0u16, 0x0800, 0x0FFF, 0x0010, 0x0ABC, 16, 23])),
+            _ => Some(self.r.u16() & 0x0FFF),
+        };
+        let ver = match self.r.below(4) { 0 => *self.r.pick(&[0x80u8, 0xFF, 1, 0x7F]), 1 => self.r.u8(), _ => 0 };
+        let dok = self.r.chance(1, 3);
+        Op::O { udp, rc, ver, dok, opts }
+    }
+    fn header(&mut self) -> Op {
+        let h = match self.r.below(6) {
+            0 => [0xFF; 4],
+            1 => [0; 4],
+            2 => { let b = 1u32 << self.r.below(32); b.to_be_bytes() }
+            _ => self.r.u32().to_be_bytes(),
+        };
+        Op::H(h)
     }
     fn push(&mut self, sec: u8, sz: Size) -> Op {
         if sec == 0 {
@@ -1195,8 +1331,11 @@ impl<'a> Gen<'a> {
                     1 => s.push(Sym::LimCur(self.r.range(50, 3000) as i64)),
                     _ => s.push(Sym::C(Op::NL)),
                 }
-            } else if c < 95 {
+            } else if c < 93 {
                 s.push(Sym::C(Op::NL));
+            } else if c < 95 {
+                let h = self.header();
+                s.push(Sym::C(h));
             } else if c < 97 {
                 s.push(Sym::C(Op::L(*self.r.pick(&[0usize, 11, 12, 13, 40, 100, 512, 600, 16384, 65535, 65536, 70000]))));
             } else {
@@ -1210,7 +1349,7 @@ impl<'a> Gen<'a> {
         let owner = self.name();
         let mut items = vec![It::Z(0, *self.r.pick(&[0u8, 0xc0, 0x3f, 0xff]))];
         items.extend(tail);
-        Sym::Pad { owner, rt: 16, cl: 1, ttl: 60, pfx: self.r.chance(1, 4), items, slot: 0, to }
+        Sym::Pad { owner, rt: 16, cl: 1, ttl: 60, pfx: self.r.chance(1, 4) as u8, items, slot: 0, to }
     }
 
     /// Names that start around offset 0x4000, then the same names again.
@@ -1311,7 +1450,7 @@ impl<'a> Gen<'a> {
             s.push(p);
             if self.r.chance(1, 2) {
                 let owner = self.name();
-                s.push(Sym::C(Op::R { owner, rt: 10, cl: 1, ttl: 1, pfx: self.r.chance(1, 2), items: vec![It::Z(self.r.range(60000, 65535) as usize, 0xc0)] }));
+                s.push(Sym::C(Op::R { owner, rt: 10, cl: 1, ttl: 1, pfx: self.r.chance(1, 2) as u8, items: vec![It::Z(self.r.range(60000, 65535) as usize, 0xc0)] }));
             }
         }
         for _ in 0..self.r.range(1, 2) {
@@ -1342,7 +1481,7 @@ impl<'a> Gen<'a> {
             } else {
                 vec![It::Z(65530, 1), It::N(self.name())]
             };
-            s.push(Sym::C(Op::R { owner, rt: 10, cl: 1, ttl: 1, pfx: self.r.chance(1, 2), items }));
+            s.push(Sym::C(Op::R { owner, rt: 10, cl: 1, ttl: 1, pfx: self.r.chance(1, 2) as u8, items }));
         }
         s
     }
@@ -1351,10 +1490,10 @@ impl<'a> Gen<'a> {
 // ------------------------------------------------------------------ corpus
 
 fn rr(owner: &str, rt: u16, ttl: u32, items: Vec<It>) -> Sym {
-    Sym::C(Op::R { owner: nm(owner), rt, cl: 1, ttl, pfx: false, items })
+    Sym::C(Op::R { owner: nm(owner), rt, cl: 1, ttl, pfx: 0, items })
 }
 fn rrw(owner: Wire, rt: u16, ttl: u32, items: Vec<It>) -> Sym {
-    Sym::C(Op::R { owner, rt, cl: 1, ttl, pfx: false, items })
+    Sym::C(Op::R { owner, rt, cl: 1, ttl, pfx: 0, items })
 }
 fn a_rr(owner: &str, ttl: u32, ip: [u8; 4]) -> Sym {
     rr(owner, 1, ttl, vec![It::B(ip.to_vec())])
@@ -1369,7 +1508,7 @@ fn n_it(s: &str) -> It {
     It::N(nm(s))
 }
 fn padto(owner: &str, to: usize) -> Sym {
-    Sym::Pad { owner: nm(owner), rt: 16, cl: 1, ttl: 0, pfx: false, items: vec![It::Z(0, 0)], slot: 0, to }
+    Sym::Pad { owner: nm(owner), rt: 16, cl: 1, ttl: 0, pfx: 0, items: vec![It::Z(0, 0)], slot: 0, to }
 }
 
 type Combo = (char, char, usize);
@@ -1401,7 +1540,7 @@ fn corpus(pool: &Pool) -> Vec<(Vec<Sym>, Vec<Combo>)> {
         rr(".", 6, 86390, vec![n_it("a.root-servers.net."), n_it("nstld.verisign-grs.com."), It::B(soa20.clone())])], all(128)));
     c.push((vec![qq("example.com.", 1), g(1), a_rr("example.com.", 86400, [192, 0, 2, 1]), a_rr("example.com.", 86400, [192, 0, 2, 2]),
         g(2), rr("example.com.", 2, 0, vec![n_it("example.com.")]), g(3), a_rr("example.com.", 86400, [192, 0, 2, 1])], all(128)));
-    c.push((vec![g(3), Sym::C(Op::O { udp: 4096, opts: vec![(3, b"example".to_vec())] })], all(40)));
+    c.push((vec![g(3), Sym::C(Op::O { udp: 4096, rc: None, ver: 0, dok: false, opts: vec![(3, b"example".to_vec())] })], all(40)));
     // historic defect witness: a name first written beyond offset 0x3FFF, pushed twice
     c.push((vec![g(1), padto(".", 16500), a_rr("late.zone.test.", 60, [10, 0, 0, 1]), a_rr("late.zone.test.", 60, [10, 0, 0, 2])],
         { let mut v = combos(&['v', 's'], &['s', 't', 'h'], 0); v.push(('b', 'h', 0)); v.push(('v', 'n', 0)); v }));
@@ -1424,7 +1563,7 @@ fn corpus(pool: &Pool) -> Vec<(Vec<Sym>, Vec<Combo>)> {
     // ... and a name in record data that starts there, then a rewind below the boundary
     for to in [0x4000usize + 13, 0x4000 + 14, 0x4000 + 15] {
         c.push((vec![g(1), a_rr("zone.test.", 1, [1, 1, 1, 1]), g(2),
-            Sym::Pad { owner: nm("."), rt: 2, cl: 1, ttl: 0, pfx: true, items: vec![It::Z(0, 0xc0), n_it("late.zone.test.")], slot: 0, to },
+            Sym::Pad { owner: nm("."), rt: 2, cl: 1, ttl: 0, pfx: 1, items: vec![It::Z(0, 0xc0), n_it("late.zone.test.")], slot: 0, to },
             rr("late.zone.test.", 2, 60, vec![n_it("a.late.zone.test.")]),
             Sym::C(Op::W),
             rr("late.zone.test.", 2, 60, vec![n_it("a.late.zone.test.")]),
@@ -1462,7 +1601,7 @@ fn corpus(pool: &Pool) -> Vec<(Vec<Sym>, Vec<Combo>)> {
         padto("example.com.", 65535), padto("example.com.", 65536)],
         { let mut v = combos(&['s'], &ALLK, 0); v.extend(combos(&['v', 'b'], &['n', 'h'], 0)); v }));
     c.push((vec![qq("example.com.", 1), g(2), padto("www.example.com.", 65530), rr("example.com.", 2, 0, vec![n_it("www.example.com.")]),
-        rr(".", 2, 0, vec![]), Sym::LimCur(1), rr(".", 2, 0, vec![]), Sym::C(Op::NL), g(3), Sym::C(Op::O { udp: 1232, opts: vec![] })],
+        rr(".", 2, 0, vec![]), Sym::LimCur(1), rr(".", 2, 0, vec![]), Sym::C(Op::NL), g(3), Sym::C(Op::O { udp: 1232, rc: None, ver: 0, dok: false, opts: vec![] })],
         { let mut v = combos(&['s'], &ALLK, 0); v.extend(combos(&['v'], &['s', 't'], 0)); v }));
     // Array: exact fit and one over
     for cap in [40usize, 128, 512] {
@@ -1475,8 +1614,8 @@ fn corpus(pool: &Pool) -> Vec<(Vec<Sym>, Vec<Combo>)> {
     for d in [-1i64, 0, 1, 2] {
         c.push((vec![qq("example.com.", 1), g(1), Sym::LimNext(d), a_rr("www.example.com.", 5, [1, 1, 1, 1]), Sym::C(Op::NL),
             a_rr("www.example.com.", 5, [1, 1, 1, 1]), rr("mail.example.com.", 15, 5, vec![It::B(vec![0, 5]), n_it("www.example.com.")])], all(128)));
-        c.push((vec![Sym::LimCur(d), qq(".", 1), Sym::LimCur(d), g(3), Sym::C(Op::O { udp: 512, opts: vec![] }), Sym::LimNext(d), qq("a.", 1),
-            Sym::LimNext(d), Sym::C(Op::O { udp: 512, opts: vec![(10, vec![1, 2, 3, 4, 5, 6, 7, 8])] }), g(0), Sym::LimNext(d), qq("a.", 1)], all(128)));
+        c.push((vec![Sym::LimCur(d), qq(".", 1), Sym::LimCur(d), g(3), Sym::C(Op::O { udp: 512, rc: None, ver: 0, dok: false, opts: vec![] }), Sym::LimNext(d), qq("a.", 1),
+            Sym::LimNext(d), Sym::C(Op::O { udp: 512, rc: None, ver: 0, dok: false, opts: vec![(10, vec![1, 2, 3, 4, 5, 6, 7, 8])] }), g(0), Sym::LimNext(d), qq("a.", 1)], all(128)));
     }
     // failed push, then the same names again: the compressor must have forgotten them
     for d in [0i64, -5, -20] {
@@ -1498,20 +1637,20 @@ fn corpus(pool: &Pool) -> Vec<(Vec<Sym>, Vec<Combo>)> {
     c.push((vec![qq("a.b.", 1), qq("b.", 1), Sym::C(Op::W), qq("b.", 1), qq("a.b.", 1), g(1), g(0), Sym::C(Op::W), qq("c.a.b.", 1)], all(128)));
     // OPT
     c.push((vec![g(3), a_rr("example.com.", 1, [1, 1, 1, 1]),
-        Sym::C(Op::O { udp: 1232, opts: vec![(10, vec![1, 2, 3, 4, 5, 6, 7, 8]), (8, vec![0, 1, 24, 0, 192, 0, 2]), (65001, vec![])] }),
-        Sym::C(Op::O { udp: 0, opts: vec![] }), a_rr("example.com.", 1, [1, 1, 1, 1]), Sym::C(Op::W), Sym::C(Op::O { udp: 65535, opts: vec![(0, vec![0xff; 40])] })], all(128)));
-    c.push((vec![qq("example.com.", 1), g(3), Sym::C(Op::O { udp: 4096, opts: vec![(3, b"example".to_vec())] }),
-        Sym::C(Op::O { udp: 4096, opts: vec![] }), Sym::C(Op::W), Sym::C(Op::O { udp: 4096, opts: vec![] })], combos(&['a'], &ALLK, 40)));
-    c.push((vec![g(3), Sym::C(Op::O { udp: 4096, opts: vec![(3, vec![7; 13]), (4, vec![])] }), Sym::C(Op::O { udp: 4096, opts: vec![(3, vec![7; 13])] }),
-        Sym::C(Op::O { udp: 1, opts: vec![(3, vec![7; 12])] }), Sym::C(Op::W), Sym::C(Op::O { udp: 1, opts: vec![(3, vec![7; 9]), (5, vec![])] })], combos(&['a'], &ALLK, 40)));
+        Sym::C(Op::O { udp: 1232, rc: None, ver: 0, dok: false, opts: vec![(10, vec![1, 2, 3, 4, 5, 6, 7, 8]), (8, vec![0, 1, 24, 0, 192, 0, 2]), (65001, vec![])] }),
+        Sym::C(Op::O { udp: 0, rc: None, ver: 0, dok: false, opts: vec![] }), a_rr("example.com.", 1, [1, 1, 1, 1]), Sym::C(Op::W), Sym::C(Op::O { udp: 65535, rc: None, ver: 0, dok: false, opts: vec![(0, vec![0xff; 40])] })], all(128)));
+    c.push((vec![qq("example.com.", 1), g(3), Sym::C(Op::O { udp: 4096, rc: None, ver: 0, dok: false, opts: vec![(3, b"example".to_vec())] }),
+        Sym::C(Op::O { udp: 4096, rc: None, ver: 0, dok: false, opts: vec![] }), Sym::C(Op::W), Sym::C(Op::O { udp: 4096, rc: None, ver: 0, dok: false, opts: vec![] })], combos(&['a'], &ALLK, 40)));
+    c.push((vec![g(3), Sym::C(Op::O { udp: 4096, rc: None, ver: 0, dok: false, opts: vec![(3, vec![7; 13]), (4, vec![])] }), Sym::C(Op::O { udp: 4096, rc: None, ver: 0, dok: false, opts: vec![(3, vec![7; 13])] }),
+        Sym::C(Op::O { udp: 1, rc: None, ver: 0, dok: false, opts: vec![(3, vec![7; 12])] }), Sym::C(Op::W), Sym::C(Op::O { udp: 1, rc: None, ver: 0, dok: false, opts: vec![(3, vec![7; 9]), (5, vec![])] })], combos(&['a'], &ALLK, 40)));
     // OPT whose options exceed 65535 octets in total
-    c.push((vec![qq("example.com.", 1), g(3), Sym::C(Op::O { udp: 1232, opts: vec![(1, vec![0x55; 32766]), (2, vec![0xaa; 32766])] }),
-        Sym::C(Op::O { udp: 1232, opts: vec![(1, vec![0x55; 32766]), (2, vec![0xaa; 32761])] }), a_rr("example.com.", 1, [1, 1, 1, 1])],
+    c.push((vec![qq("example.com.", 1), g(3), Sym::C(Op::O { udp: 1232, rc: None, ver: 0, dok: false, opts: vec![(1, vec![0x55; 32766]), (2, vec![0xaa; 32766])] }),
+        Sym::C(Op::O { udp: 1232, rc: None, ver: 0, dok: false, opts: vec![(1, vec![0x55; 32766]), (2, vec![0xaa; 32761])] }), a_rr("example.com.", 1, [1, 1, 1, 1])],
         vec![('v', 'n', 0), ('v', 'h', 0), ('s', 't', 0), ('b', 's', 0)]));
     // ops that the current section does not have (observed as `-`), a record in each section
-    c.push((vec![qq("example.com.", 1), a_rr("example.com.", 1, [1, 1, 1, 1]), Sym::C(Op::O { udp: 1, opts: vec![] }), g(1), a_rr("example.com.", 1, [1, 1, 1, 1]),
-        qq("example.com.", 1), Sym::C(Op::O { udp: 1, opts: vec![] }), g(2), rr("example.com.", 2, 1, vec![n_it("a.example.com.")]), g(3),
-        a_rr("a.example.com.", 1, [1, 1, 1, 1]), Sym::C(Op::O { udp: 1, opts: vec![] }), qq("example.com.", 1)], all(512)));
+    c.push((vec![qq("example.com.", 1), a_rr("example.com.", 1, [1, 1, 1, 1]), Sym::C(Op::O { udp: 1, rc: None, ver: 0, dok: false, opts: vec![] }), g(1), a_rr("example.com.", 1, [1, 1, 1, 1]),
+        qq("example.com.", 1), Sym::C(Op::O { udp: 1, rc: None, ver: 0, dok: false, opts: vec![] }), g(2), rr("example.com.", 2, 1, vec![n_it("a.example.com.")]), g(3),
+        a_rr("a.example.com.", 1, [1, 1, 1, 1]), Sym::C(Op::O { udp: 1, rc: None, ver: 0, dok: false, opts: vec![] }), qq("example.com.", 1)], all(512)));
     // maximal names
     for (i, m) in pool.maximal.iter().enumerate() {
         let cv = m.to_ascii_uppercase();
@@ -1544,15 +1683,103 @@ fn corpus(pool: &Pool) -> Vec<(Vec<Sym>, Vec<Combo>)> {
     c.push((vec![g(1), rr("srv.example.net.", 33, 1, vec![It::B(vec![0; 6]), It::U(nm("target.example.net."))]),
         rr("target.example.net.", 2, 1, vec![n_it("target.example.net.")]), rr("example.net.", 33, 1, vec![It::B(vec![0; 6]), It::U(nm("example.net."))])], all(128)));
     // record data longer than 65535 octets
-    c.push((vec![g(1), Sym::C(Op::R { owner: nm("."), rt: 10, cl: 1, ttl: 0, pfx: true, items: vec![It::Z(40000, 1), It::Z(30000, 2)] })],
+    c.push((vec![g(1), Sym::C(Op::R { owner: nm("."), rt: 10, cl: 1, ttl: 0, pfx: 1, items: vec![It::Z(40000, 1), It::Z(30000, 2)] })],
         vec![('v', 'n', 0), ('b', 't', 0), ('s', 's', 0)]));
-    c.push((vec![g(1), Sym::C(Op::R { owner: nm("."), rt: 10, cl: 1, ttl: 0, pfx: false, items: vec![It::Z(65536, 1)] })],
+    c.push((vec![g(1), Sym::C(Op::R { owner: nm("."), rt: 10, cl: 1, ttl: 0, pfx: 0, items: vec![It::Z(65536, 1)] })],
         vec![('v', 's', 0), ('s', 'n', 0), ('a', 'h', 128)]));
-    c.push((vec![g(1), Sym::C(Op::R { owner: nm("."), rt: 10, cl: 1, ttl: 0, pfx: false, items: vec![It::Z(65535, 1)] }),
-        Sym::C(Op::R { owner: nm("."), rt: 10, cl: 1, ttl: 0, pfx: true, items: vec![It::Z(65535, 1)] })],
+    c.push((vec![g(1), Sym::C(Op::R { owner: nm("."), rt: 10, cl: 1, ttl: 0, pfx: 0, items: vec![It::Z(65535, 1)] }),
+        Sym::C(Op::R { owner: nm("."), rt: 10, cl: 1, ttl: 0, pfx: 1, items: vec![It::Z(65535, 1)] })],
         vec![('v', 'h', 0), ('s', 'n', 0), ('b', 'n', 0)]));
-    c.push((vec![qq("example.com.", 1), g(1), Sym::C(Op::R { owner: nm("."), rt: 10, cl: 1, ttl: 0, pfx: false, items: vec![It::Z(65530, 1), n_it("example.com.")] })],
+    c.push((vec![qq("example.com.", 1), g(1), Sym::C(Op::R { owner: nm("."), rt: 10, cl: 1, ttl: 0, pfx: 0, items: vec![It::Z(65530, 1), n_it("example.com.")] })],
         vec![('v', 'n', 0), ('v', 's', 0), ('v', 't', 0), ('v', 'h', 0), ('s', 'n', 0), ('s', 'h', 0)]));
+    // ---- widening round -------------------------------------------------
+    let typed = |owner: &str, rt: u16, ttl: u32, items: Vec<It>| Sym::C(Op::R { owner: nm(owner), rt, cl: 1, ttl, pfx: 2, items });
+    let soa_typed = typed(".", 6, 86390, vec![n_it("a.root-servers.net."), n_it("nstld.verisign-grs.com."), It::B(soa20.clone())]);
+    // the golden SOA test through the library's Soa type
+    c.push((vec![qq("example.", 2), g(2), soa_typed.clone()], all(128)));
+    // all eight typed record data kinds, with names repeating earlier ones
+    let eight = vec![qq("example.com.", 255), g(1),
+        typed("example.com.", 1, 0x8000_0000, vec![It::B(vec![192, 0, 2, 1])]),
+        typed("example.com.", 28, 0xFFFF_FFFF, vec![It::B(vec![0x20, 1, 0xd, 0xb8, 0, 0, 0, 0, 0, 0, 0, 0, 0, 0, 0, 1])]),
+        typed("example.com.", 2, 3600, vec![n_it("ns.example.com.")]),
+        typed("www.example.com.", 5, 3600, vec![n_it("EXAMPLE.com.")]),
+        g(2),
+        typed("1.2.0.192.in-addr.arpa.", 12, 0x7FFF_FFFF, vec![n_it("www.example.com.")]),
+        typed("example.com.", 15, 3600, vec![It::B(vec![0, 10]), n_it("mail.example.com.")]),
+        typed("example.com.", 6, 0x8000_0001, vec![n_it("ns.example.com."), n_it("hostmaster.example.com."), It::B(soa20.clone())]),
+        g(3),
+        typed("_sip._tcp.example.com.", 33, 60, vec![It::B(vec![0, 1, 0, 2, 0x13, 0xc4]), It::U(nm("sip.example.com."))]),
+        typed("sip.example.com.", 1, 60, vec![It::B(vec![192, 0, 2, 9])])];
+    c.push((eight.clone(), { let mut v = combos(&['v', 's', 'b'], &ALLK, 0); v.extend(combos(&['a'], &ALLK, 128)); v.extend(combos(&['a'], &ALLK, 512)); v }));
+    // record TTLs with the top bit set in every record section, typed and raw
+    c.push((vec![g(1), a_rr("a.", 0x8000_0000, [1, 1, 1, 1]), rr("a.", 2, 0xFFFF_FFFF, vec![n_it("b.a.")]), g(2),
+        a_rr("a.", 0xFFFF_FFFF, [1, 1, 1, 2]), typed("a.", 15, 0x8000_0000, vec![It::B(vec![0, 1]), n_it("b.a.")]), g(3),
+        a_rr("b.a.", 0x8000_0001, [1, 1, 1, 3]), typed("b.a.", 1, 0xFFFF_FFFE, vec![It::B(vec![1, 1, 1, 4])])], all(128)));
+    // OPT header fields with high bits: ext rcode 0xFF, version 255, DO, all of them; header rcode nibble
+    for (rc, ver, dok) in [(Some(0x0FF0u16), 0u8, false), (None, 255, false), (None, 0, true), (Some(0x0FFF), 255, true), (Some(0x0800), 0x80, true), (Some(0x0ABC), 3, false)] {
+        c.push((vec![Sym::C(Op::H([0x12, 0x34, 0x85, 0xA5])), qq("example.com.", 1), g(3),
+            Sym::C(Op::O { udp: 1232, rc, ver, dok, opts: vec![(10, vec![1, 2, 3, 4, 5, 6, 7, 8])] }), a_rr("example.com.", 1, [1, 1, 1, 1])],
+            { let mut v = combos(&['v', 's'], &ALLK, 0); v.push(('a', 's', 128)); v }));
+    }
+    // a failing opt() whose closure set the extended rcode: the header RCODE must be what it was
+    c.push((vec![Sym::C(Op::H([0, 0, 0, 0x05])), g(3), Sym::C(Op::L(20)), Sym::C(Op::O { udp: 1232, rc: Some(0x0ABC), ver: 0, dok: false, opts: vec![] }),
+        Sym::C(Op::NL), Sym::C(Op::O { udp: 1232, rc: Some(0x0123), ver: 1, dok: true, opts: vec![] })], combos(&['v', 's'], &['n', 'h'], 0)));
+    c.push((vec![g(3), Sym::C(Op::O { udp: 1232, rc: Some(0x0FF7), ver: 0, dok: false, opts: vec![(3, vec![7; 40])] }), a_rr("a.", 1, [1, 1, 1, 1])],
+        combos(&['a'], &ALLK, 40)));
+    // header setters: every single bit, all ones, interleaved with pushes and rewinds
+    let mut hs = vec![qq("example.com.", 1)];
+    for bit in 0..32u32 {
+        hs.push(Sym::C(Op::H((1u32 << bit).to_be_bytes())));
+        if bit % 8 == 7 {
+            hs.push(g(1 + (bit / 8 % 3) as u8));
+            hs.push(a_rr("example.com.", bit, [1, 1, 1, 1]));
+        }
+    }
+    hs.push(Sym::C(Op::H([0xFF; 4])));
+    hs.push(Sym::C(Op::B));
+    hs.push(qq("example.com.", 1));
+    c.push((hs, { let mut v = combos(&['v', 's'], &ALLK, 0); v.push(('a', 'n', 512)); v }));
+    // a name remembered exactly AT the offset the builder later truncates to must be
+    // forgotten: failed push / rewind / conversion / builder(), then a different name Z of the
+    // same shape at that offset, then Y again (as owner and inside record data)
+    for (y, z) in [("yyy.test.", "zzz.test."), ("yyy.example.com.", "zzz.example.com."), ("yyy.", "zzz."), ("a.yyy.other.", "b.zzz.other.")] {
+        let tail = vec![a_rr(z, 1, [2, 2, 2, 2]), a_rr(y, 1, [3, 3, 3, 3]), rr(y, 2, 1, vec![n_it(y)]), rr(z, 15, 1, vec![It::B(vec![0, 1]), n_it(y)])];
+        let bcombos = { let mut v = combos(&['v', 's'], &ALLK, 0); v.extend(combos(&['a'], &ALLK, 128)); v };
+        // (a) failed push at an exact limit
+        let mut a = vec![qq("example.com.", 1), g(1), Sym::LimNext(0), a_rr(y, 1, [1, 1, 1, 1]), Sym::C(Op::NL)];
+        a.extend(tail.clone());
+        c.push((a, bcombos.clone()));
+        // (b) rewind of the section whose first record starts with Y
+        let mut b = vec![qq("example.com.", 1), g(1), a_rr(y, 1, [1, 1, 1, 1]), Sym::C(Op::W)];
+        b.extend(tail.clone());
+        c.push((b, bcombos.clone()));
+        // (c) conversion back from a later section / builder()
+        let mut cc = vec![qq("example.com.", 1), g(1), a_rr("example.com.", 1, [9, 9, 9, 9]), g(2), rr(y, 2, 1, vec![n_it(y)]), g(3), a_rr(y, 1, [1, 1, 1, 1]), g(1)];
+        cc.extend(tail.clone());
+        c.push((cc, bcombos.clone()));
+        let mut d = vec![qq(y, 1), g(1), a_rr(y, 1, [1, 1, 1, 1]), Sym::C(Op::B), qq(z, 1), qq(y, 1), g(1)];
+        d.extend(tail.clone());
+        c.push((d, bcombos.clone()));
+        // (d) the name sits in the record data of the failed push
+        let mut e = vec![qq("example.com.", 1), g(2), Sym::LimNext(-1), rr("example.com.", 2, 1, vec![n_it(y)]), Sym::C(Op::NL), rr("example.com.", 2, 1, vec![n_it(z)])];
+        e.extend(tail.clone());
+        c.push((e, bcombos));
+    }
+    // every direct conversion (from, to) with pushes in all sections before and a push after
+    for from in 0..4u8 {
+        for to in 0..5u8 {
+            let mut sc = vec![qq("example.com.", 1)];
+            if from >= 1 { sc.push(g(1)); sc.push(a_rr("example.com.", 1, [1, 1, 1, 1])); sc.push(rr("www.example.com.", 5, 1, vec![n_it("example.com.")])); }
+            if from >= 2 { sc.push(g(2)); sc.push(rr("example.com.", 2, 1, vec![n_it("ns.example.com.")])); }
+            if from >= 3 { sc.push(g(3)); sc.push(a_rr("ns.example.com.", 1, [1, 1, 1, 2])); sc.push(Sym::C(Op::O { udp: 1232, rc: None, ver: 0, dok: true, opts: vec![] })); }
+            let dest = if to == 4 { sc.push(Sym::C(Op::B)); 0 } else { sc.push(g(to)); to };
+            if dest == 0 { sc.push(qq("ns.example.com.", 28)); } else { sc.push(rr("ns.example.com.", 2, 7, vec![n_it("www.example.com.")])); }
+            sc.push(g(3));
+            sc.push(a_rr("www.example.com.", 1, [1, 1, 1, 3]));
+            c.push((sc, combos(&['v', 's'], &ALLK, 0)));
+        }
+    }
+
     c
 }
 
